@@ -133,6 +133,11 @@ def run(ck):
     # fragment - the reception path hands each one over, whatever the delivery list holds (R05.7)
     from . import c05
     c05.handed_to_queue(ck, agg)
+    # "a message that was not sent in full": the receiver cannot tell a FIRST..LAST gap (known finding R06.2), so the property leans on the
+    # sender aborting after a fragment that was not delivered - the timed re-send must report the radio's own result of the last re-send,
+    # never success for a fragment that was flushed or never re-sent (R13.7, shared with C13)
+    from . import c13
+    c13.standby_rule(ck, agg)
     agg.flush()
     ck.floor("R06", "fragment kinds x cache states", nsc, 5)
     ck.floor("R06.4", "re-delivery scenarios after completion", nre, 2)
